@@ -423,6 +423,7 @@ func TestTLSCertDirect(t *testing.T) {
 	for _, tm := range keys.Types {
 		// learn the length of the value for this key type (ECDSA-family signatures vary by a few bytes)
 		_, n := runCertDirect(t, certCase{variant: flip, tv: "ed25519", tm: tm, pos: 1 << 20, mask: 1})
+		t.Logf("extension value length with a %s identity: %d bytes", tm, n)
 		for pos := 0; pos < n+4; pos++ {
 			k++
 			if !hx.Mine(k) {
@@ -582,7 +583,7 @@ func TestTLSCertHandshake(t *testing.T) {
 						if vi == flip || vi == trunc {
 							// spread over the value; its length depends on the attacker's key type
 							positions = nil
-							n := map[string]int{"ed25519": 108, "ecdsa": 172, "secp256k1": 116, "rsa": 566}[tm]
+							n := map[string]int{"ed25519": 106, "ecdsa": 174, "secp256k1": 116, "rsa": 568}[tm]
 							step := hx.Pick(n/6+1, 1)
 							for p := (i + ei) % step; p < n; p += step {
 								positions = append(positions, p)
